@@ -49,7 +49,7 @@ try:
     rc, out = sh('VERIF_REPO=%s VERIF_EVIDENCE_DIR=%s /venv/bin/python check.py --all' % (wt, evd), cwd='/verif', timeout=900)
     shutil.rmtree(evd, ignore_errors=True)
     lines = [l for l in out.splitlines() if l.startswith(('VIOLATION', 'ANALYSIS-ERROR'))]
-    detail = [l.strip() for l in out.splitlines() if l.startswith('  rule ') and ' at ' in l]
+    detail = [l.strip() for l in out.splitlines() if l.startswith('  rule ') and '] at ' in l]
     meta['checks_exit'] = rc
     meta['violations'] = lines
     meta['violation_detail'] = sorted(set(detail))[:12]
